@@ -60,6 +60,17 @@ def dispatch_frameworks(rng, tier):
         n, atts = gen.random_framework(rng, 8)
         if n:
             fws.append((n, atts))
+    # medium-size frameworks (answers compared with the composed model only; the oracle is exponential)
+    for _ in range(2 if tier == "quick" else 12):
+        order = list(range(rng.randint(14, 36)))
+        rng.shuffle(order)
+        atts = []
+        for i in range(1, len(order)):
+            for _ in range(1 if rng.random() < 0.8 else 2):
+                atts.append((order[rng.randrange(max(0, i - 5), i)], order[i]))
+        a, b = rng.sample(order, 2)
+        atts += [(a, b), (b, a)]
+        fws.append((len(order), list(dict.fromkeys(atts))))
     return fws
 
 
@@ -71,7 +82,7 @@ class C05(Property):
             "on `crustabri solve` and on the ICCMA'23 wrapper; stdout must be exactly the status line and/or one witness line, exit status 0, and the answer is judged by the Lean oracle (witness validated "
             "against the semantics, not against a particular extension); malformed invocations (unreadable or ill-formed file, unknown problem, missing -a, unknown argument, unknown reader/encoding/level, "
             "duplicate and unknown options) must exit non-zero without any answer line; `--problems` / `problems` must list exactly the 21 problems; "
-            "dispatch correspondence: on frameworks that separate the semantics (no stable extension, stage != semi-stable, preferred != complete, above the hybrid threshold, random ones) every problem x "
+            "dispatch correspondence: on frameworks that separate the semantics (no stable extension, stage != semi-stable, preferred != complete, above the hybrid threshold, random ones, two of 14-36 arguments) every problem x "
             "every --encoding value (and `SE-PR` literal vs recased) is run with --external-sat-solver pointing to a recording script: the DIMACS text of every SAT call must equal (header, and clauses up to clause and literal order) the text "
             "rendered by the composed Lean model (readProblem, dispatchSolver, dispatchEncoder, entryProg, Buffered.dimacs) replayed on the recorded replies, the printed answer must equal the model's, "
             "and is judged by the oracle as well; the problem-string parser is compared with Cli.readProblem on the 21 problems and mutations of them (case, extra / missing / doubled hyphens, blanks, swapped parts, non-ASCII look-alikes) and on random concatenations of name pieces; `crustabri check` on well- and ill-formed files of both formats (the C13 generator) must exit 0 exactly when the Lean reader model accepts the file; non-trivial = invocation on a framework with an attack")
